@@ -33,20 +33,26 @@ theorem refresh_closed (hc : ClosedU u P) (s : BSt) (h : P s) : P (refreshCache 
   · exact hc.aux _ _ h rfl rfl rfl
   · exact h
 
-theorem runInjU_closed (hc : ClosedU u P) (table : List (Nat × Nat × List UFOp)) (s : BSt) (site : Nat) (h : P s) :
-    P (runInjU u table s site) := by
+/-- the injection runner needs only `aux` and `front` -/
+theorem runInjU_closed' (haux : ∀ s s', P s → s'.cfg = s.cfg → s'.ths = s.ths → s'.actors = s.actors → P s')
+    (hfront : ∀ s f, P s → P (applyFrontU u s f).1)
+    (table : List (Nat × Nat × List UFOp)) (s : BSt) (site : Nat) (h : P s) : P (runInjU u table s site) := by
   unfold runInjU
   dsimp only
   have h1 : P { s with siteCnt := (site, ((s.siteCnt.find? (·.1 = site)).map (·.2)).getD 0 + 1) :: s.siteCnt.filter (·.1 ≠ site) } :=
-    hc.aux _ _ h rfl rfl rfl
+    haux _ _ h rfl rfl rfl
   split
   · exact h1
   · refine foldl_inv P _ ?_ _ _ h1
     intro a f ha
-    apply emit_closed hc
+    have hemit : ∀ (x : BSt) (e : Ev), P x → P (x.emit e) := fun x e hx => haux _ _ hx rfl rfl rfl
+    apply hemit
     split
     · exact ha
-    · exact hc.front a f ha
+    · exact hfront a f ha
+
+theorem runInjU_closed (hc : ClosedU u P) (table : List (Nat × Nat × List UFOp)) (s : BSt) (site : Nat) (h : P s) :
+    P (runInjU u table s site) := runInjU_closed' hc.aux hc.front table s site h
 
 theorem ctxEmptyU_closed (hc : ClosedU u P) (s : BSt) (i : Nat) (h : P s) : P (ctxEmptyU s i).1 := hc.emptyT s i h
 
